@@ -54,6 +54,7 @@ def run_job(job):
             res.ev()
             return runner.run([q], cwd=cwd_box[0], home=home, trace=trace)
 
+        pool = []
         for qi in range(job["queries"]):
             arch = rng.random() < 0.4
             opts = rng.choice(["", "", " bfs", " dfs"]) + (" archives" if arch else "")
@@ -115,6 +116,8 @@ def run_job(job):
             for N in ns:
                 ltxt = "" if N is None else " limit %d" % N
                 q = "path%s%s%s%s%s into list" % (extra_col, "" if nofrom else " from " + frm, wtxt, otxt, ltxt)
+                if not nofrom:
+                    pool.append(q)
                 r = run(q, trace=(N is not None and N % 5 == 1))
                 ctx = {"query": q, "M": M, "N": N, "result": r.brief()}
                 if r.verdict != "ok":
@@ -166,6 +169,9 @@ def run_job(job):
                 if M >= 2:
                     res.nt("%s|%s|%s|%d" % (frm, where, otxt, M))
                 res.sample({"query": "path from %s%s%s limit N" % (frm, wtxt, otxt), "M": M, "N_values": len(ns)}, cap=2)
+        # history: limited and unlimited queries in one interactive session (`fselect -i`): no counter or buffer survives a query
+        if len(pool) >= 2:
+            runner.session_matches(res, rng.sample(pool, min(5, len(pool))), w, home, "limited queries")
     finally:
         runner.rm_scratch(sc)
     return res
